@@ -502,6 +502,20 @@ def judge_seq(ctx, c):
     j.value('seq-unpack', ic, key('unpack'), call(lambda: o.unpack(fmt)), vals)
     if uniform:
         j.value('seq-unpack', ic, key('unpack-mult'), call(lambda: o.unpack(f'{len(items)}*{names[0]}')), vals)
+    # the codewords are followed by data that a length-less token takes: each codeword still advances by exactly its own length
+    t_ = mkobj(c.get('ucls', 'Bits'), bits + post)
+    rest = post
+    n_ = len(vals)
+
+    def split_(r, *more):
+        return (r[:n_], tuple(B(x) if isinstance(x, Bits) else x for x in r[n_:]) + more)
+    j.value('seq-unpack', ic, key('unpack-then-rest'), call(lambda: split_(t_.unpack(fmt + ', bits'))), (vals, (rest,)))
+    j.value('seq-unpack', ic, key('unpack-then-bin'), call(lambda: split_(t_.unpack(fmt + ', bin'))), (vals, (rest,)))
+    if len(post) >= 4:
+        fx = f'{fmt}, bin, uint:4'
+        j.value('seq-unpack', ic, key('unpack-then-rest-then-fixed'), call(lambda: split_(t_.unpack(fx))), (vals, (rest[:-4], int(rest[-4:], 2))))
+    s2 = mkobj(cls, pre + bits + post, p0)
+    j.value('seq-readlist', ic, key('readlist-then-rest'), call(lambda: split_(s2.readlist(fmt + ', bits'), s2.pos)), (vals, (rest, p0 + len(bits) + len(post))))
     # re-pack / token string / join
     j.created('seq-pack', ic, key('pack-pos'), call(lambda: B(pack(fmt, *vals))), bits)
     eq = ', '.join(f'{code}={v}' for code, v in items)
